@@ -1,26 +1,32 @@
 """C11 - mailbox namespace commands behave as the RFC 3501 reference model.
 
-Oracle: spec/Namespace.tla (names = token sequences, recursive wildcard
-matcher, CREATE/DELETE/RENAME/SUBSCRIBE/UNSUBSCRIBE/LIST/LSUB/STATUS/SELECT/
-APPEND; RFC latitude = several tagged outcomes; named deviations = extra
-outcomes carrying r.dev).
+Oracle: spec/Namespace.tla.  Names and patterns are token sequences, `MatchX`
+is the recursive RFC 3501 wildcard matcher, every command has a SET of allowed
+outcomes (RFC latitude = several outcomes, each tagged), and every named
+deviation of the tree under test is an extra outcome carrying r.dev.
 
-1. TLC checks the model's own sanity on every allowed outcome (Namespace_rfc.cfg:
-   INBOX protected, failing commands change nothing, RENAME preserves, ...).
-2. spec -> code: TLC dumps the state graph of the deterministic selection
-   `NextAsIs` (what pymap is believed to do, a refinement of the allowed
-   outcomes by construction) for several small configurations; an edge cover
-   is replayed on the real server.  After EVERY command the tagged result and
-   data are compared with `last`, and LIST "" * / LSUB "" * / STATUS of every
-   name with `probe` / `mbx`.  Mailbox identities (UIDVALIDITY, UIDNEXT, UIDs,
-   message bodies) are followed through r.moved / r.fresh / r.gone / r.app.
-   `-simulate` behaviours (VERIF_SEED) of a bigger universe give longer programs;
-   the matcher configurations enumerate <name set, reference, pattern>.
-3. code -> spec: an execution that differs from the prediction is judged by
-   TLC (Trace_Namespace.tla) against ALL allowed outcomes: accepted = drift,
-   rejected = VIOLATION.  A sample of the matching executions is validated
-   too, so that the judge is exercised on every run.
-Deviations used by an accepted execution are the known-finding signatures.
+1. TLC checks the model's own sanity on every allowed outcome
+   (Namespace_rfc.cfg: INBOX protected, a failing command changes nothing,
+   RENAME preserves the mailboxes it moves, the effects bookkeeping is exact).
+2. spec -> code.  `NextAsIs` is the deterministic selection, from the allowed
+   outcomes, of what pymap is believed to do (Dev = the OPEN entries of
+   known/C11.json).  TLC dumps its state graph for several small
+   configurations (hierarchy, INBOX, trailing / leading delimiter); an edge
+   cover is run on fresh real servers.  After EVERY command the tagged result
+   and data are compared with `last`, and LIST "" * / LSUB "" * / STATUS of
+   every name with `probe` / `mbx`; the real mailbox objects (UIDVALIDITY,
+   UIDNEXT, UIDs, bodies) are followed through r.moved / r.fresh / r.gone /
+   r.app.  `-simulate` behaviours (VERIF_SEED) of a bigger universe are the
+   longer programs; the matcher configuration enumerates <name set,
+   reference, pattern>.  Every abstract name is sent in several
+   concretisations (CONCS) and wire forms (atom / quoted / literal+,
+   modified UTF-7 written and read by this module, not by pymap).
+3. code -> spec.  An execution that differs from the prediction is judged by
+   TLC (Trace_Namespace.tla) against ALL allowed outcomes and all deviations:
+   accepted = drift (exit 0), rejected = VIOLATION.  A sample of the matching
+   executions is judged as well so that the judge runs on every invocation.
+The deviations an accepted execution needs are its known-finding signatures.
+A backend parameter (maildir, both layouts) is carried by Driver / Execution.
 """
 
 from __future__ import annotations
@@ -735,6 +741,7 @@ TOURS = {
 }
 MATCH = {'quick': 'Namespace_matchq.cfg', 'thorough': 'Namespace_match.cfg'}
 SIM = {'quick': (40, 60), 'thorough': (600, 120)}     # behaviours, depth
+JUDGE_MAX = 20000
 
 
 def cfg_with_dev(cfg: str, devs, scratch: str) -> str:
@@ -893,7 +900,7 @@ def main(tier: str) -> int:
     # ---- 4. verdicts -----------------------------------------------------------
     drifted = [e for e in plan if e.drift is not None]
     sample = [plan[i] for i in sorted(keep) if plan[i].drift is None]
-    to_judge = drifted[:400] + sample
+    to_judge = drifted[:JUDGE_MAX] + sample
     try:
         verd = judge(to_judge)
     except tlc.TLCError as exc:
@@ -925,8 +932,8 @@ def main(tier: str) -> int:
                     f'RFC 3501 allows in the state reached'
                     + (f' ({e.drift["why"]})' if last else ''))
             run.violation(what, e.replay_dict(reached + 1), None)
-    if len(drifted) > 400:
-        run.machinery(f'{len(drifted)} executions differ from the model; only 400 judged')
+    if len(drifted) > JUDGE_MAX:
+        run.machinery(f'{len(drifted)} executions differ from the model; only {JUDGE_MAX} judged')
     by_dev: dict = {}
     for e in plan:
         for what, detail in e.broken:
@@ -982,7 +989,8 @@ def replay(path: str) -> int:
                 pl = d.listing(b'LIST', (), ('*',))
                 ps = d.listing(b'LSUB', (), ('*',))
                 names = prev | {n for n, _ in pl['ents']} | {tuple(x) for x in cmd[1:] if x}
-                names = {n for n in names if n and '*' not in n and '%' not in n
+                names = {(('I',) if n == ('i',) else n) for n in names
+                         if n and '*' not in n and '%' not in n
                          and not any(t.startswith('?') or t == '&' for t in n)}
                 st = {n: d.status(n) for n in sorted(names)}
                 e._event(cmd, o, True, pl['ents'], ps['ents'], st)
@@ -1004,9 +1012,11 @@ def replay(path: str) -> int:
               'RFC 3501 allows')
         return 1
     print(f'accepted by Trace_Namespace ({length} events), deviations used: {sorted(used)}')
-    run = Run(PROP, 'replay')
-    bad = [dv for dv in used if not run.known.excuses(dv)]
-    if data.get('signature') and data['signature'] in used and data['signature'] in bad:
+    known = Run(PROP, 'replay').known
+    bad = [dv for dv in sorted(used) if not known.excuses(dv)]
+    known.print_seen()
+    if bad:
         print(f'VIOLATION property={PROP} replay={path}')
+        print(f'  needs the deviation(s) {bad}, which are not open known findings')
         return 1
-    return 1 if bad else 0
+    return 0
